@@ -227,6 +227,15 @@ func cmdVisePairs(args []string) error {
 			cleanup()
 			out.put(pairEvent{Ev: "pair", Kind: "mode", Sid: sid, Store: st, Inputs: encAll(inputs), Extra: []string{}, A: a, B: b, ModeA: "L", ModeB: "P"})
 			npairs++
+			// engine.Loop over the same history (lines decorated with white space that Loop trims), then the rest from the store
+			if si%2 == 0 {
+				raw := decorateLines(rng, inputs[:loopable(inputs)])
+				nfeed := 1 + rng.Intn(len(raw))
+				lev := serveLoop(p, sid, st, raw, rng.Intn(4) != 0, nfeed, si%4 == 0 || st != "mem", mkHashPicks(pseed), stats, null)
+				lev.Pseed = fmt.Sprint(pseed)
+				out.put(lev)
+				npairs++
+			}
 			// C07: two sessions served alternately through one reused Persister object vs each with fresh persisters
 			if prev != nil {
 				rstore, rclean := newStoreC(st, sid+"r")
@@ -296,6 +305,22 @@ func cmdVisePairs(args []string) error {
 	summary(map[string]any{"programs": nprog, "pairs": npairs, "sessions": stats.Sessions, "requests": stats.Requests, "iterations": stats.Iterations,
 		"panics": stats.Panics, "distinct_pairs": len(stats.Pairs), "events": out.n})
 	return nil
+}
+
+// decorateLines puts white space that engine.Loop trims around some of the lines (never around the initial value)
+func decorateLines(rng *rand.Rand, inputs []string) []string {
+	raw := append([]string{}, inputs...)
+	for i := 1; i < len(raw); i++ {
+		switch rng.Intn(8) {
+		case 0:
+			raw[i] = " " + raw[i]
+		case 1:
+			raw[i] = raw[i] + " \t"
+		case 2:
+			raw[i] = "\t" + raw[i] + "\r"
+		}
+	}
+	return raw
 }
 
 func encAll(xs []string) []string {
@@ -397,6 +422,19 @@ func cmdVisePairsHist(args []string) error {
 		bb := servePicks(p, sid+".P", "P", bs, h.Inputs, h.Picks, null, stats)
 		cleanup()
 		out.put(pairEvent{Ev: "pair", Kind: "mode", Sid: sid, Store: st, Inputs: encAll(h.Inputs), Extra: []string{}, A: a, B: bb, ModeA: "L", ModeB: "P"})
+		// every second history also through engine.Loop (as many lines as the history number says), the rest from the store
+		if n%2 == 1 {
+			raw := append([]string{}, h.Inputs[:loopable(h.Inputs)]...)
+			if n%4 == 1 {
+				raw = decorateLines(rand.New(rand.NewSource(int64(n))), raw)
+			}
+			lev := serveLoop(p, sid, st, raw, n%8 != 3, 1+(n/2)%len(raw), n%3 != 0, mkListPicks(h.Picks), stats, null)
+			lev.Picks = h.Picks
+			if lev.Picks == nil {
+				lev.Picks = [][]int{}
+			}
+			out.put(lev)
+		}
 		// every third history is also served alternately with an earlier, different history through ONE kept Persister
 		// (flushed, or unflushed for sessions the store already has) and compared with its per-request-persister transcript
 		past = append(past, pastHist{sid, h, bb})
